@@ -27,10 +27,23 @@ def out_record(res, k):
                 inrange=all(0 <= v < 4 ** k for v in vals) and arr.ndim == 1)
 
 
-def sig_record(k, pre, seqs, types, accs, as_single=False):
+def failing_call(kspec):
+    """a calc_signature call that fails AFTER k-mers were found (second element has a wrong type); the error is swallowed"""
+    pre = kspec.prefix
+    good = pre + b'ACGT' * 8 + pre + b'TTGCA' * 7
+    try:
+        calc_signature(kspec, [good, 12345])
+    except Exception:
+        return True
+    return False
+
+
+def sig_record(k, pre, seqs, types, accs, as_single=False, after_failure=False):
     """Run calc_signature for every (type, accumulator) variant; identical outputs are stored once."""
     outs = {}
     kspec = KmerSpec(k, bytes(pre))
+    if after_failure:
+        failing_call(kspec)
     for t in types:
         conv = [TYPES[t](s) for s in seqs]
         if any(c is None for c in conv):
@@ -74,7 +87,7 @@ class Fam(core.Family):
         if inp['op'] == 'find':
             return find_record(inp['k'], bytes(inp['pre']), bytes(inp['seqs'][0]), inp.get('typ', 'bytes'))
         return sig_record(inp['k'], bytes(inp['pre']), [bytes(s) for s in inp['seqs']], inp['types'], inp['accs'],
-                          as_single=inp.get('single', False))
+                          as_single=inp.get('single', False), after_failure=inp.get('after_failure', False))
 
     def nontrivial(self, inp, rec):
         # non-trivial: the expected signature is non-empty (some output has >= 1 k-mer)
@@ -193,9 +206,71 @@ class Random(Fam):
             accs = ['set', 'default']
             if k <= 10 or (k <= 12 and i % 50 == 0):
                 accs.append('array')
-            yield dict(op='sig', k=k, pre=list(pre), seqs=seqs, types=ALLT, accs=accs, single=(i % 3 == 0))
+            yield dict(op='sig', k=k, pre=list(pre), seqs=seqs, types=ALLT, accs=(['default'] + accs) if i % 5 == 0 else accs, single=(i % 3 == 0),
+                       after_failure=(i % 5 == 0))
             if i % 4 == 0:
                 yield dict(op='find', k=k, pre=list(pre), seqs=[seqs[0]], typ=rng.choice(['bytes', 'bytearray', 'Seq']))
+
+
+class LongContigs(Fam):
+    """Contigs longer than 2^20 nt.  TLC judges overlapping 2,000-nt pieces of the contig (overlap |prefix|+k-1, so that every
+    prefix+k-mer window lies inside some piece - lemma LemmaPieces, model-checked); the signature of the whole contig must be the
+    union of the piece signatures TLC accepted."""
+    name = 'long-contigs'
+    exhaustive = False
+    rule = ('contigs of 2^20 + 3000 nt with prefix occurrences planted at every offset 2^20-j, j in 0..|prefix|+k+1, on both strands (k=11/ATGAC '
+            'and k=5/AT): the whole-contig signature must equal the union of the signatures of overlapping 2,000-nt pieces, each judged by TLC')
+    procs = 16
+
+    def inputs(self, ctx):
+        return []
+
+    @staticmethod
+    def build(seed, k, pre):
+        import random
+        rng = random.Random(seed)
+        n = (1 << 20) + 3000
+        s = bytearray(rng.choice(b'ACGT') for _ in range(n))
+        T = len(pre) + k
+        rc = bytes({65: 84, 84: 65, 67: 71, 71: 67}[c] for c in reversed(pre))
+        for j in range(0, T + 2):
+            p = (1 << 20) - j
+            w = pre if j % 2 == 0 else rc
+            s[p:p + len(pre)] = w
+            s[p - 400 - 37 * j: p - 400 - 37 * j + len(pre)] = rc if j % 2 == 0 else pre
+        return bytes(s)
+
+
+def long_contig_check(ctx):
+    fam = LongContigs()
+    nrec = 0
+    for (k, pre, seed) in [(11, b'ATGAC', ctx.seed)] if ctx.tier == 'quick' else [(11, b'ATGAC', ctx.seed), (5, b'AT', ctx.seed + 1), (16, b'ATG', ctx.seed + 2), (3, b'ACA', ctx.seed + 3)]:
+        s = LongContigs.build(seed, k, pre)
+        T = len(pre) + k
+        kspec = KmerSpec(k, pre)
+        whole = set(int(v) for v in calc_signature(kspec, s))
+        # pieces around the window boundary region are judged by TLC; far away only every 40th piece (cost), all pieces are used for the union
+        step = 2000
+        pieces = [(a, min(len(s), a + step + T - 1)) for a in range(0, len(s), step)]
+        union = set()
+        judged_inputs = []
+        for idx, (a, b) in enumerate(pieces):
+            sig = calc_signature(kspec, s[a:b], accumulator=SetAccumulator(k))
+            union |= set(int(v) for v in sig)
+            near = abs(a - (1 << 20)) < 3 * step or abs(b - (1 << 20)) < 3 * step
+            if near or idx % (150 if ctx.tier == 'quick' else 40) == 0:
+                judged_inputs.append(dict(op='sig', k=k, pre=list(pre), seqs=[list(s[a:b])], types=['bytes'], accs=['default']))
+        recs, bad = core.run_family(ctx, fam, inputs=judged_inputs)
+        nrec += len(recs)
+        if whole != union:
+            missing = sorted(union - whole)[:3]
+            extra = sorted(whole - union)[:3]
+            ctx.report('long-contigs', dict(k=k, pre=list(pre), seed=seed, length=len(s)), dict(missing=missing, extra=extra, n_whole=len(whole), n_union=len(union)),
+                       ['whole-contig-signature-differs-from-union-of-overlapping-pieces'], key=f'long-contig:k{k}',
+                       describe=f'k={k} prefix={pre!r} length={len(s)}: {len(union - whole)} k-mers missing, {len(whole - union)} extra')
+        ctx.nontrivial_keys.add(('long', k, seed))
+        ctx.traces += 1
+        ctx.evaluations += 1
 
 
 FAMILIES = [ExhaustiveN, ExhaustiveMixed, Random]
@@ -214,8 +289,9 @@ def run(ctx):
                note='mixed-case alphabet {A,T,c,g,a,N}, length <= 5')
     for F in FAMILIES:
         core.run_family(ctx, F())
+    long_contig_check(ctx)
     ctx.assumptions += ['k-mer indices are shipped to TLC as base-4 digit tuples (projection in harness/enc.py)',
-                        'sequences longer than 5000 nt are not explored (cost is linear; nothing in the algorithm depends on length)']
+                        'contigs longer than 5000 nt are checked through the piece lemma (whole = union of overlapping pieces judged by TLC), up to 2^20 + 3000 nt']
 
 
 def replay(ctx, scen):
